@@ -5,10 +5,18 @@ package urlrule
 /*@
 ufunc sameRule(a int, b int) bool
 
+// two rules are the same iff their configured fields are: methods in order, the three URL patterns, the policy
+// reference. The compiled regular expression (URL.re, written by Init: the live rule has one, the rule of a new
+// spec has none yet) is not part of it - a rule that compares unequal to itself after Init loses its limiter on
+// every reload. sameRule, the relation the callers reason with, is by definition this one (the assume).
+pred sameConfigured(a *URLRule, b *URLRule) := len(a.Methods) == len(b.Methods) && (forall k int :: 0 <= k && k < len(a.Methods) ==> a.Methods[k] == b.Methods[k]) && a.URL.Exact == b.URL.Exact && a.URL.Prefix == b.URL.Prefix && a.URL.RegEx == b.URL.RegEx && a.PolicyRef == b.PolicyRef
 func (r *URLRule) DeepEqual(r1 *URLRule) (eq bool)
-  trusted
   pure
+  requires r != nil && r1 != nil
+  assume sameRule-is-equality-of-the-configured-fields: sameRule(ref(r), ref(r1)) == sameConfigured(r, r1)
   ensures eq == sameRule(ref(r), ref(r1))
+  ensures equal-iff-the-configured-fields-are: eq == sameConfigured(r, r1)
+  invariant[1] 0 <= i && i <= len(r.Methods) && len(r.Methods) == len(r1.Methods) && (forall k int :: 0 <= k && k < i ==> r.Methods[k] == r1.Methods[k])
 
 func (r *URLRule) Init()
   trusted
